@@ -1192,6 +1192,7 @@ func (e *Engine) addReflect() {
 	rt := func(c *callCtx) *RType { return c.args[0].(NativeVal).V.(*RType) }
 	in["(*reflect.rtype).Kind"] = func(c *callCtx) Value { return uint64(reflectKind(rt(c).T)) }
 	in["(*reflect.rtype).String"] = func(c *callCtx) Value { return rt(c).Str }
+	e.addReflectShim()
 	in["(*reflect.rtype).Name"] = func(c *callCtx) Value {
 		if n, ok := rt(c).T.(*types.Named); ok {
 			return n.Obj().Name()
